@@ -1,0 +1,68 @@
+// Copyright 2020-2025 Buf Technologies, Inc.
+//
+// Licensed under the Apache License, Version 2.0 (the "License");
+// you may not use this file except in compliance with the License.
+// You may obtain a copy of the License at
+//
+//      http://www.apache.org/licenses/LICENSE-2.0
+//
+// Unless required by applicable law or agreed to in writing, software
+// distributed under the License is distributed on an "AS IS" BASIS,
+// WITHOUT WARRANTIES OR CONDITIONS OF ANY KIND, either express or implied.
+// See the License for the specific language governing permissions and
+// limitations under the License.
+
+//go:build verif
+
+package app
+
+// Contracts for the gocv verifier (see /verif/DESIGN.md), author ca-r4f. Comment-only.
+// Ghost variables rf_stderrN / rf_stderrText / rf_errText / rf_cmdErr: /verif/specs/R4f.spec.
+//
+// C20: what the user sees for a failed command. printError writes the error's message to stderr as ONE line, and writes
+// nothing at all for an error with an empty message (bufctl.ErrFileAnnotation: the annotations were already printed in the
+// requested --error-format, the status 100 says the rest).
+// Ghost code: rf_errText is the message the error reported (err.Error() is not pure, so its result is recorded where it is
+// taken), rf_stderrN counts the lines written to stderr, rf_stderrText is the text of the most recent one.
+//@ func printError(container, err)
+//@   property C20
+//@   modifies heap, ghost.rf_stderrN, ghost.rf_stderrText, ghost.rf_errText
+//@   requires err != nil
+//@   ghost after "if errString := err.Error()" rf_errText := errString
+//@   ghost before "_, _ = fmt.Fprintln(container.Stderr(), errString)" rf_stderrN := ghost.rf_stderrN + 1
+//@   ghost before "_, _ = fmt.Fprintln(container.Stderr(), errString)" rf_stderrText := errString
+//@   ensures message-printed-once: ghost.rf_errText != "" ==> ghost.rf_stderrN == old(ghost.rf_stderrN) + 1 && ghost.rf_stderrText == ghost.rf_errText
+//@   ensures empty-message-silent: ghost.rf_errText == "" ==> ghost.rf_stderrN == old(ghost.rf_stderrN) && ghost.rf_stderrText == old(ghost.rf_stderrText)
+//
+// Run: "returns the error unchanged": the result IS the error the command function returned (rf_cmdErr records it before it is
+// printed), nil exactly for a successful command; a failed command's message goes to stderr once (nothing for an empty message),
+// a successful command prints nothing here. (The call through f is an I/O sink: ghost.fail is raised iff it returns an error.)
+//@ func Run(ctx, container, f) (r)
+//@   property C20
+//@   modifies heap, ghost.fail, ghost.wfail, ghost.rf_stderrN, ghost.rf_stderrText, ghost.rf_errText, ghost.rf_cmdErr
+//@   ghost before "printError(container, err)" rf_cmdErr := err
+//@   ensures error-unchanged: r != nil ==> r == ghost.rf_cmdErr
+//@   ensures nil-exactly-for-success: !old(ghost.fail) ==> ((r != nil) <==> ghost.fail)
+//@   ensures success-prints-nothing: r == nil ==> ghost.rf_stderrN == old(ghost.rf_stderrN)
+//@   ensures failure-message-once: r != nil && ghost.rf_errText != "" ==> ghost.rf_stderrN == old(ghost.rf_stderrN) + 1 && ghost.rf_stderrText == ghost.rf_errText
+//@   ensures empty-message-silent: r != nil && ghost.rf_errText == "" ==> ghost.rf_stderrN == old(ghost.rf_stderrN)
+//@   canary ensures r == nil
+//@   canary ensures r != nil
+//
+// NewErrorf: like NewError / WrapError (zz_verif_contracts.go): an error that carries a non-zero status, the given one if non-zero.
+//@ func NewErrorf(exitCode, format, args) (r)
+//@   property C20
+//@   modifies heap
+//@   ensures r != nil && typeOf(r) == typeId(*appError) && cast(*appError, r).exitCode != 0
+//@   ensures code-kept: exitCode != 0 ==> cast(*appError, r).exitCode == exitCode
+//
+// appError: unwrapping gives the wrapped error (so errors.Is / errors.As see through the status wrapper); a nil *appError has
+// nothing to unwrap.
+//@ func (e *appError) Unwrap() (r)
+//@   property C20
+//@   ensures wrapped: e != nil ==> r == e.err
+//@   ensures nil-receiver: e == nil ==> r == nil
+//
+// (Main is not under contract: its call GetExitCode(Run(..)) cannot establish GetExitCode's precondition - the object invariant
+// "every appError in the chain has a non-zero status" - for the arbitrary error a command function returns:
+// app.Main#pre@app.GetExitCode[0] "solver says sat".)
